@@ -148,6 +148,10 @@ def int_eval(fn, env: dict[str, object], consts: dict[str, object] | None = None
                 raise _Return(ev(st.value, loc) if st.value is not None else None)
             elif isinstance(st, ast.Assign) and len(st.targets) == 1:
                 loc[ast.unparse(st.targets[0])] = ev(st.value, loc)
+            elif isinstance(st, ast.AnnAssign) and st.value is not None:
+                loc[ast.unparse(st.target)] = ev(st.value, loc)
+            elif isinstance(st, ast.AnnAssign):
+                continue
             else:
                 raise AnalysisError(f'int_eval: statement {ast.unparse(st)[:60]!r} is not modelled')
     loc = {}
